@@ -466,18 +466,20 @@ Definition ltrans (cfg : config) (l l' : list (option world)) : Prop :=
   (forall i w, l !! i = Some (Some w) -> l' !! i = Some None \/ exists w', l' !! i = Some (Some w') /\ wtrans cfg w w') /\
   (forall i, l !! i = Some None -> l' !! i = Some None) /\
   (forall i w', length l <= i -> l' !! i = Some (Some w') ->
-       Forall (fun s => Inv s /\ len s = 0) w' \/ (exists j w, l !! j = Some (Some w) /\ w' = w)).
+       Forall (fun s => Inv s /\ len s = 0) w' \/ (exists j w, l !! j = Some (Some w) /\ w' = w)) /\
+  (* at most one existing world is touched *)
+  (exists c, forall i, i <> c -> i < length l -> l' !! i = l !! i).
 
 Lemma ltrans_refl cfg l : ltrans cfg l l.
 Proof.
-  split_and!; [done| |done|].
+  split_and!; [done| |done| |by exists 0].
   - intros i w Hi. right. exists w. split; [done|apply wtrans_refl].
   - intros i w' Hi Hl. apply lookup_lt_Some in Hl. unfold world in *. lia.
 Qed.
 
 Lemma ltrans_insert cfg l i w w' : l !! i = Some (Some w) -> wtrans cfg w w' -> ltrans cfg l (<[i := Some w']> l).
 Proof.
-  intros Hi Hw. split_and!; [by rewrite insert_length| | |].
+  intros Hi Hw. split_and!; [by rewrite insert_length| | | |exists i; intros j Hj _; by rewrite list_lookup_insert_ne].
   - intros j wj Hj. right. destruct (decide (j = i)) as [->|Hne].
     + rewrite Hi in Hj. injection Hj as <-. exists w'. rewrite list_lookup_insert by (by eapply lookup_lt_Some). done.
     + exists wj. rewrite list_lookup_insert_ne by done. split; [done|apply wtrans_refl].
@@ -487,7 +489,7 @@ Qed.
 
 Lemma ltrans_drop cfg l i : ltrans cfg l (<[i := None]> l).
 Proof.
-  split_and!; [by rewrite insert_length| | |].
+  split_and!; [by rewrite insert_length| | | |exists i; intros j Hj _; by rewrite list_lookup_insert_ne].
   - intros j wj Hj. destruct (decide (j = i)) as [->|Hne].
     + left. rewrite list_lookup_insert by (by eapply lookup_lt_Some). done.
     + right. exists wj. rewrite list_lookup_insert_ne by done. split; [done|apply wtrans_refl].
@@ -499,7 +501,7 @@ Qed.
 Lemma ltrans_app cfg l w' : (Forall (fun s => Inv s /\ len s = 0) w' \/ (exists j w, l !! j = Some (Some w) /\ w' = w)) ->
   ltrans cfg l (l ++ [Some w']).
 Proof.
-  intros Hw. split_and!; [rewrite app_length; lia| | |].
+  intros Hw. split_and!; [rewrite app_length; lia| | | |exists 0; intros j _ Hj; by rewrite lookup_app_l].
   - intros j wj Hj. right. exists wj. rewrite lookup_app_l by (by eapply lookup_lt_Some). split; [done|apply wtrans_refl].
   - intros j Hj. by rewrite lookup_app_l by (by eapply lookup_lt_Some).
   - intros j wj Hj Hl. rewrite lookup_app_r in Hl by done. apply list_lookup_singleton_Some in Hl as [_ [= <-]]. done.
@@ -804,7 +806,7 @@ Proof. unfold wtrans. induction 1; constructor; [by eapply esteps_weaken|done]. 
 
 Lemma ltrans_weaken ac wr cfg l l' : ltrans ac wr cfg l l' -> ltrans true true cfg l l'.
 Proof.
-  intros (A & B & C & D). split_and!; try done. intros i w Hi. destruct (B i w Hi) as [?|(w' & ? & ?)]; [by left|].
+  intros (A & B & C & D & E). split_and!; try done. intros i w Hi. destruct (B i w Hi) as [?|(w' & ? & ?)]; [by left|].
   right. exists w'. split; [done|by eapply wtrans_weaken].
 Qed.
 
@@ -827,7 +829,7 @@ Definition RHist (cfg : config) (d : wdecl) (st : rstate) : Prop :=
 Lemma ltrans_rhist cfg l l' : ltrans true true cfg l l' ->
   (forall i w, l !! i = Some (Some w) -> Forall (sreach true true cfg) w) -> forall i w', l' !! i = Some (Some w') -> Forall (sreach true true cfg) w'.
 Proof.
-  intros (Hlen & Hlive & Hdead & Hnew) Hall i w' Hi'. unfold world in *. destruct (decide (i < length l)) as [Hlt|Hge].
+  intros (Hlen & Hlive & Hdead & Hnew & _) Hall i w' Hi'. unfold world in *. destruct (decide (i < length l)) as [Hlt|Hge].
   - destruct (lookup_lt_is_Some_2 l i Hlt) as [[w|] Hi].
     + destruct (Hlive i w Hi) as [Hn|(w2 & Hw2 & Htr)]; [rewrite Hn in Hi'; done|]. rewrite Hi' in Hw2. injection Hw2 as <-.
       specialize (Hall i w Hi). unfold wtrans in Htr. clear Hi Hi'. induction Htr; [constructor|].
